@@ -31,5 +31,15 @@ func TestSweep(t *testing.T) {
 			}
 		}
 	}
+	// buffers produced by a growing Append with partial frames (capacity possibly not a whole number of frames)
+	for _, tn := range names {
+		for C := 2; C <= 5; C++ {
+			for pre := 0; pre < C; pre++ {
+				for srcN := 1; srcN <= 3*C+2; srcN++ {
+					Oracle.One(t, env, rec, "sweep", &Case{T: tn, C: C, A: pre, B: srcN, N: 4*C + 12, Fix: 3, Vals: []int64{9, 0, 127}})
+				}
+			}
+		}
+	}
 	rec.Exhaustive("13 types x C<=4 x root<=3(5) frames x all windows x every call count 0..spare+C+1 and 3*cap+5", true)
 }
